@@ -414,3 +414,104 @@ func castValues(ctx context.Context, loc *time.Location, tag string, digit func(
 		nd.Assert(eq("time", src, t.Format("15:04:05")) == oT, tag+"/timestamp.time/not-the-time-part")
 	}
 }
+
+var _ = reg("C17_Sequences", C17_Sequences)
+var _ = reg("C17_Transitions", C17_Transitions)
+
+// C17_Sequences: a lax comparison over a sequence of datetime items is the
+// left-to-right fold of the comparisons of its items: true at the first item
+// that satisfies it (nothing after that item is looked at, so a later pair
+// that would need WithTZ does not fail the predicate), a non-suppressible
+// error at the first pair that raises one, otherwise unknown if some pair
+// was, else false. Related to the executions on the single items.
+func C17_Sequences() {
+	n := 3
+	pool := []string{"2015-08-02", "12:34:56", "12:34:56+02:00", "2015-08-02T12:34:56", "2015-08-02T12:34:56+02:00", "2015-08-01T23:00:00-04:00"}
+	items := make([]any, n)
+	for i := range items {
+		items[i] = pool[nd.Choice(len(pool))]
+	}
+	lit := []string{"2015-08-02", "2015-08-02T12:34:56+02:00", "12:34:56"}[nd.Choice(3)]
+	op := []string{"<", ">="}[nd.Choice(2)]
+	ctx := bg
+	if nd.Choice(2) == 1 {
+		if loc, err := time.LoadLocation("America/New_York"); err == nil {
+			ctx = types.ContextWithTZ(bg, loc)
+		}
+	}
+	var opts []exec.Option
+	if nd.Choice(2) == 1 {
+		opts = append(opts, exec.WithTZ())
+	}
+	cond := ".datetime() " + op + " \"" + lit + "\".datetime()"
+	one := func(doc any, src string) int {
+		r, err := parse(src).Query(ctx, doc, opts...)
+		if err != nil {
+			if hardErr(err) {
+				return oH
+			}
+			return oBad
+		}
+		if len(r) != 1 {
+			return oBad
+		}
+		switch v := r[0].(type) {
+		case nil:
+			return oU
+		case bool:
+			return b2o(v)
+		}
+		return oBad
+	}
+	got := one(items, "$[*]"+cond)
+	want, sawU := oF, false
+	for _, it := range items {
+		r := one(it, "$"+cond)
+		if r == oT || r == oH {
+			want = r
+			break
+		}
+		if r == oU {
+			sawU = true
+		}
+	}
+	if want == oF && sawU {
+		want = oU
+	}
+	nd.Assert(got == want, "C17/sequence/lax-comparison-is-not-the-fold-of-its-items "+op)
+}
+
+// C17_Transitions: date -> timestamptz on and around the days a named zone
+// changes its offset (zones east and west of UTC, both hemispheres): midnight
+// of that day in the zone, and back to the same date.
+func C17_Transitions() {
+	zones := []string{"Australia/Sydney", "Pacific/Auckland", "America/New_York", "Europe/London", "Australia/Adelaide", "America/Sao_Paulo"}
+	days := []string{"2024-04-06", "2024-04-07", "2024-04-08", "2024-10-05", "2024-10-06", "2024-10-07", "2024-09-28", "2024-09-29", "2024-03-10", "2024-03-31", "2024-11-03", "2024-10-27", "2018-11-04", "2018-02-18"}
+	loc, err := time.LoadLocation(zones[nd.Choice(len(zones))])
+	if err != nil {
+		nd.Cover("C17/transitions/zone-not-available")
+		return
+	}
+	day := days[nd.Choice(len(days))]
+	ctx := types.ContextWithTZ(bg, loc)
+	opts := []exec.Option{exec.WithTZ()}
+	d, perr := time.ParseInLocation("2006-01-02", day, loc)
+	nd.Assert(perr == nil, "C17/transitions/oracle-cannot-parse-its-own-date")
+	if perr != nil {
+		return
+	}
+	if d.Format("2006-01-02") != day {
+		// midnight does not exist in the zone on that day (the clocks jump
+		// over it): the property speaks of local times that exist
+		nd.Cover("C17/transitions/midnight-does-not-exist")
+		return
+	}
+	want := d.Format("2006-01-02T15:04:05Z07:00")
+	nd.Assert(cmpOutcome(ctx, "$a.timestamp_tz() == $b.timestamp_tz()", day, want, opts) == oT, "C17/transitions/date.timestamp_tz/not-midnight-in-the-context-zone")
+	nd.Assert(cmpOutcome(ctx, "$a.timestamp_tz().string().date() == $b.date()", day, day, opts) == oT, "C17/transitions/date.timestamp_tz.date/not-the-same-date")
+	nd.Assert(cmpOutcome(ctx, "$a.date() == $b.timestamp_tz()", day, want, opts) == oT, "C17/transitions/date-compared-with-its-own-midnight")
+	// timestamp -> timestamptz at noon of that day
+	noon := day + "T12:00:00"
+	tn, _ := time.ParseInLocation("2006-01-02T15:04:05", noon, loc)
+	nd.Assert(cmpOutcome(ctx, "$a.timestamp_tz() == $b.timestamp_tz()", noon, tn.Format("2006-01-02T15:04:05Z07:00"), opts) == oT, "C17/transitions/timestamp.timestamp_tz/not-the-local-time-in-the-context-zone")
+}
